@@ -29,12 +29,12 @@ def gen_cases(seed, tier):
         dt = rng.choice([0.25, 0.5, 1.0]); n_t = rng.randint(6, 14); T = [i * dt for i in range(n_t)]
         # incl. the band around the queue length n_t*dt = T[-1] + dt, where the slot index reaches the clamp (seeded change S_C10 / S_C20)
         dl = rng.choice([0.0, 0.2 * dt, dt, 2.0 * dt, 3.3 * dt, T[-1] + 5 * dt, T[-1] + 0.6 * dt, T[-1] + dt, T[-1] + 1.4 * dt, T[-1] - 0.4 * dt]); a0 = rng.randint(3, 10)
-        kind = rng.choice(["dssa", "dssa", "ssa", "vssa"])
+        kind = rng.choice(["dssa", "dssa", "ssa", "vssa", "dvssa"])
         spec = {"species": ["A", "B"], "reactions": [{"reactants": ["A"], "products": [], "type": "massaction", "params": {"k": rng.choice([0.3, 0.8, 2.0])},
                                                        "delay": {"type": "fixed", "reactants": [], "products": ["B"], "params": {"delay": dl}}}],
                 "parameters": {}, "x0": {"A": float(a0), "B": 0.0}}
         c = {"spec": spec, "kind": kind, "safe": False, "times": T, "seed": rng.randint(1, 2**31), "family": "canonical", "delay": dl, "a0": a0}
-        if kind == "vssa": c["volume"] = {"type": "base", "V0": 1.0}
+        if kind in ("vssa", "dvssa"): c["volume"] = {"type": "base", "V0": 1.0}
         cases.append(c)
     # sampler replays
     for _ in range(60 if tier == "quick" else 600):
@@ -86,7 +86,7 @@ def oracle(case, r):
     A = [row[0] for row in rows]; B = [row[1] for row in rows]
     tag = "%s delay=%g dt=%g" % (case["kind"], dl, dt)
     if any(b < 0 or b != int(b) for b in B) or any(a < 0 for a in A): return "accounting (%s): rows %r" % (tag, rows)
-    if case["kind"] != "dssa" or dl <= 0:
+    if case["kind"] not in ("dssa", "dvssa") or dl <= 0:
         # no delay support / zero delay: both parts at the firing time
         for k in range(len(rows)):
             if A[k] + B[k] != a0: return "both parts at the firing time (%s): A+B = %r at row %d, expected %d" % (tag, A[k] + B[k], k, a0)
